@@ -188,7 +188,7 @@ def gen_reply_case(rnd, prev_key16):
     key16 = bytes(bytearray(rnd.getrandbits(8) for _ in range(16)))
     good = digest(key16)
     kind = rnd.choice(["good", "good", "good", "status", "no_upgrade", "bad_upgrade", "no_accept", "wrong_accept", "accept_other_key", "accept_prev_key",
-                       "accept_case", "accept_trunc", "accept_extra", "accept_8bit", "upgrade_8bit", "big_terminated", "big_unterminated", "garbage"])
+                       "accept_case", "accept_trunc", "accept_extra", "accept_8bit", "upgrade_8bit", "big_terminated", "big_unterminated", "garbage", "smuggled"])
     status = b"101"
     headers = [(b"Upgrade", rnd.choice([b"websocket", b"WebSocket", b"WEBSOCKET"])), (b"Connection", b"Upgrade"), (b"Sec-WebSocket-Accept", good),
                (b"Server", b"unit test"), (b"X-Pad", b"a, b;c=d")]
@@ -221,6 +221,18 @@ def gen_reply_case(rnd, prev_key16):
         expect = "rejected"
     elif kind == "no_accept":
         headers = [h for h in headers if h[0] != b"Sec-WebSocket-Accept"]
+        expect = "rejected"
+    elif kind == "smuggled":
+        # a required header is missing; its text appears only INSIDE the value of another header, behind a bare LF, CR or
+        # another character that some line splitters take for a line end: header lines end with CRLF and nothing else
+        victim = rnd.choice([b"Upgrade", b"Sec-WebSocket-Accept", b"both"])
+        sep = rnd.choice([b"\n", b"\r", b"\n", b"\x0b", b"\x0c", b"\x1c", b"\x1d", b"\x1e", b"\x85", b"\n "])
+        hidden = b""
+        for n, v in headers:
+            if n == victim or (victim == b"both" and n in (b"Upgrade", b"Sec-WebSocket-Accept")):
+                hidden += sep + n + b": " + v
+        headers = [(n, v) for n, v in headers if not (n == victim or (victim == b"both" and n in (b"Upgrade", b"Sec-WebSocket-Accept")))]
+        headers.append((rnd.choice([b"X-Powered-By", b"Via", b"Set-Cookie"]), b"Gateway/2.1" + hidden))
         expect = "rejected"
     elif kind == "upgrade_8bit":
         # bytes that are not ASCII inside a header value are not "nothing"
